@@ -9,4 +9,11 @@ require (
 	golang.org/x/tools v0.30.0
 )
 
+require (
+	github.com/go-toolsmith/astcopy v1.0.2 // indirect
+	github.com/go-toolsmith/astequal v1.0.3 // indirect
+	github.com/quasilyte/stdinfo v0.0.0-20220114132959-f7386bf02567 // indirect
+	golang.org/x/exp/typeparams v0.0.0-20240213143201-ec583247a57a // indirect
+)
+
 replace github.com/quasilyte/go-ruleguard => /repo
